@@ -162,7 +162,10 @@ func (c *Ctx) classParse() *classParse {
 				continue
 			}
 			if depth < 3 {
-				for _, ce := range callsIn(st) {
+				// in evaluation order: an argument is computed before the call it is passed to
+				calls := callsIn(st)
+				sort.SliceStable(calls, func(i, j int) bool { return calls[i].End() < calls[j].End() })
+				for _, ce := range calls {
 					var id *ast.Ident
 					switch fn := ce.Fun.(type) {
 					case *ast.Ident:
